@@ -83,7 +83,8 @@ def build(p):
             return fn(p['k'], p['n'], p['m'], planted_assignments=[list(a) for a in p['planted']])
         finally:
             mod.random = old
-    return fn(p['k'], p['n'], p['m'], seed=p['seed'], planted_assignments=[list(a) for a in p['planted']])
+    conv = [list, tuple, set, frozenset][(p['k'] + p['n'] + p['m']) % 4]      # any collection of literals is an assignment
+    return fn(p['k'], p['n'], p['m'], seed=p['seed'], planted_assignments=[conv(a) for a in p['planted']])
 
 
 def judge(p, alg=None, part=None):
